@@ -20,8 +20,8 @@ from vp import gens
 
 
 @st.composite
-def imaging_cases(draw, max_inner=5, max_k=3, kernel_kinds=("nonneg", "signed", "sparse", "normalised"),
-                  min_inner=2, min_unmasked=2, data_kind=None):
+def imaging_cases(draw, max_inner=5, max_k=3, kernel_kinds=("nonneg", "signed", "sparse", "normalised", "integer"),
+                  min_inner=2, min_unmasked=2, data_kind=None, unit_exponents=(0,)):
     ker = draw(gens.kernels(max_side=max_k, kinds=kernel_kinds))
     kh, kw = len(ker["values"]), len(ker["values"][0])
     hy, hx = kh // 2, kw // 2
@@ -45,7 +45,14 @@ def imaging_cases(draw, max_inner=5, max_k=3, kernel_kinds=("nonneg", "signed", 
             mu = sum(data) / n
             data = [d - mu for d in data]
     noise = draw(st.lists(gens.positives(0.1, 5.0), min_size=n, max_size=n))
+    # flux unit: data and noise multiplied by an exact power of two (the normal equations are homogeneous in it);
+    # absolute thresholds in the implementation only bite in some magnitude regimes
+    ue = draw(st.sampled_from(list(unit_exponents)))
+    if ue:
+        data = [d * 2.0 ** ue for d in data]
+        noise = [v * 2.0 ** ue for v in noise]
     return {
+        "unit_exponent": ue,
         "mask": mask, "pixel_scales": draw(gens.pixel_scales()), "origin": draw(gens.origins(mag=20.0)),
         "kernel": ker["values"], "kernel_kind": ker["kind"], "data": data, "data_kind": dk, "noise": noise,
     }
@@ -335,4 +342,4 @@ def scene_labels(case, ctx):
         if o["type"] != "func":
             ctx.label("sub:per-pixel" if isinstance(o["sub"], list) and len(set(o["sub"])) > 1 else "sub:uniform")
         ctx.label("reg:none" if o.get("reg") is None else "reg:%s" % o["reg"]["type"])
-    ctx.label("data:%s" % case.get("data_kind", "?"))
+    ctx.label("data:%s" % case.get("data_kind", "?"), "unit:2^%d" % case.get("unit_exponent", 0))
